@@ -266,3 +266,11 @@ def c19(tier, seed):
 
 
 CHECKS.update({"C19": c19})
+
+
+def c20(tier, seed):
+    import c20 as m
+    return m.run(tier, seed)
+
+
+CHECKS.update({"C20": c20})
